@@ -39,6 +39,8 @@ class Probe:
         self.count = 0
         self.lock = threading.Lock()
         self.trace = None       # optional list of labels
+        self.connects = 0
+        self.foreign_pid_uses = 0
         self._audit_on = False
         self._audit_installed = False
 
@@ -66,7 +68,15 @@ def verb_of(sql):
 
 
 class ProbeConnection(_sqlite3.Connection):
+    def __init__(self, *args, **kwargs):
+        super().__init__(*args, **kwargs)
+        self._vf_pid = os.getpid()
+        PROBE.connects += 1
+
     def execute(self, sql, *args):
+        if self._vf_pid != os.getpid():
+            # SQLite forbids carrying an open connection across fork()
+            PROBE.foreign_pid_uses += 1
         verb = verb_of(sql)
         if verb == 'PRAGMA':
             return super().execute(sql, *args)
